@@ -128,13 +128,22 @@ func mCheckMerged(rt *rapid.T, se *vsql.Session, what, table string, cols []stri
 	if !vsql.EqualStrings(got, exp.Sorted()) {
 		rt.Fatalf("%s: rows of %s differ from the model\n got: %s\nwant: %s", what, table, vsql.Show(got), vsql.Show(exp.Sorted()))
 	}
-	cres, err := se.Query(confQuery)
-	if err != nil {
-		rt.Fatalf("%s: %s: %v", what, confQuery, err)
-	}
-	conf = cres.Sorted()
-	if !vsql.EqualStrings(conf, expConf) {
-		rt.Fatalf("%s: dolt_conflicts_%s differs from the model\n got: %s\nwant: %s", what, table, vsql.Show(conf), vsql.Show(expConf))
+	if len(expConf) == 0 {
+		// without conflicts the conflict table takes all three column sets from the current schema:
+		// only its emptiness is compared
+		all := se.MustQuery(rt, "SELECT * FROM dolt_conflicts_"+table)
+		if len(all.Data) != 0 {
+			rt.Fatalf("%s: dolt_conflicts_%s has rows, the model has no conflict\n got: %v", what, table, all)
+		}
+	} else {
+		cres, err := se.Query(confQuery)
+		if err != nil {
+			rt.Fatalf("%s: %s: %v", what, confQuery, err)
+		}
+		conf = cres.Sorted()
+		if !vsql.EqualStrings(conf, expConf) {
+			rt.Fatalf("%s: dolt_conflicts_%s differs from the model\n got: %s\nwant: %s", what, table, vsql.Show(conf), vsql.Show(expConf))
+		}
 	}
 	n, _ := se.Scalar(rt, "SELECT COALESCE(SUM(num_conflicts),0) FROM dolt_conflicts WHERE `table` = '"+table+"'")
 	if n != fmt.Sprint(len(expConf)) {
@@ -260,36 +269,45 @@ func c29Case(rt *rapid.T, env *mEnv, rec *vh.Recorder) {
 		idxKind = merged.Cols[merged.colIdx(sp.Index)].Kind
 	}
 
-	// direction 1: theirs into ours
-	exp1, conf1 := mModelMerge(base, ours, theirs, sc, oursChanged)
-	var rows1, crow1, rows2, crow2 []string
-	skip1 := c29ShapeLeftSchemaRightDelete(base, ours, theirs, sc, oursChanged) && vh.OpenFinding("C29", c29FindLeftSchemaRightDelete)
-	if skip1 {
-		rec.Excluded(1)
-	} else {
-		flag := mDoMerge(rt, c, mode, "m1", "b1", "b2")
-		if (flag != "0") != (len(conf1) > 0) {
-			rt.Fatalf("dolt_merge(b2 into b1) conflicts flag %s, model has %d conflicts", flag, len(conf1))
+	pkNames := mNames(sp.Cols[:sp.NPK])
+	oneWay := func(what, work, from, other string, oursS, theirsS *mSide, oursCh bool) (*mExpect, []string, []string, bool) {
+		e := mModelMerge(base, oursS, theirsS, sc, oursCh)
+		if (c29ShapeLeftSchemaRightDelete(base, oursS, theirsS, sc, oursCh) && vh.OpenFinding("C29", c29FindLeftSchemaRightDelete)) ||
+			(c29ShapeByteEqual(base, oursS, theirsS, sc) && vh.OpenFinding("C29", c29FindByteEqual)) {
+			rec.Excluded(1)
+			return e, nil, nil, true
 		}
-		cq1 := mConflictQuery("t", mNames(base.Cols), cols, mNames(theirs.Cols))
-		rows1, crow1 = mCheckMerged(rt, se, "merge b2 into b1", "t", cols, exp1, mConflictDisplay(conf1, base, theirs, exp1), cq1, sp.Index, idxKind)
-		mEndMerge(rt, se, mode, len(conf1) > 0)
-	}
-
-	// direction 2: ours into theirs, from the same two heads
-	exp2, conf2 := mModelMerge(base, theirs, ours, sc, sc != nil && !oursChanged)
-	skip2 := c29ShapeLeftSchemaRightDelete(base, theirs, ours, sc, sc != nil && !oursChanged) && vh.OpenFinding("C29", c29FindLeftSchemaRightDelete)
-	if skip2 {
-		rec.Excluded(1)
-	} else {
-		flag := mDoMerge(rt, c, mode, "m2", "b2", "b1")
-		if (flag != "0") != (len(conf2) > 0) {
-			rt.Fatalf("dolt_merge(b1 into b2) conflicts flag %s, model has %d conflicts", flag, len(conf2))
+		flag := mDoMerge(rt, c, mode, work, from, other)
+		if sc != nil && sc.Refused {
+			// documented schema conflict: reported, listed in dolt_schema_conflicts, data untouched
+			if flag != "1" {
+				rt.Fatalf("%s: INT->BIGINT on one side must be reported as a (schema) conflict, flag %s", what, flag)
+			}
+			sres := se.MustQuery(rt, "SELECT table_name FROM dolt_schema_conflicts").Sorted()
+			if !vsql.EqualStrings(sres, []string{"t"}) {
+				rt.Fatalf("%s: dolt_schema_conflicts lists %v, want [t]", what, sres)
+			}
+			got := se.MustQuery(rt, mSelect("t", mNames(oursS.Cols))).Sorted()
+			if !vsql.EqualStrings(got, oursS.T.Sorted()) {
+				rt.Fatalf("%s: refused merge changed the table\n got: %s\nwant: %s", what, vsql.Show(got), mShow(oursS.T))
+			}
+			mEndMerge(rt, se, mode, true)
+			return e, nil, nil, true
 		}
-		cq2 := mConflictQuery("t", mNames(base.Cols), cols, mNames(ours.Cols))
-		rows2, crow2 = mCheckMerged(rt, se, "merge b1 into b2", "t", cols, exp2, mConflictDisplay(conf2, base, ours, exp2), cq2, sp.Index, idxKind)
-		mEndMerge(rt, se, mode, len(conf2) > 0)
+		if len(e.Alt) > 0 {
+			e.settle(mDoltConflictKeys(rt, se, "t", pkNames))
+		}
+		if (flag != "0") != (len(e.Confs) > 0) {
+			rt.Fatalf("%s: dolt_merge conflicts flag %s, model has %d conflicts", what, flag, len(e.Confs))
+		}
+		cq := mConflictQuery("t", mNames(base.Cols), cols, mNames(theirsS.Cols))
+		rows, crows := mCheckMerged(rt, se, what, "t", cols, e.T, mConflictDisplay(e.Confs, base, theirsS, e.T), cq, sp.Index, idxKind)
+		mEndMerge(rt, se, mode, len(e.Confs) > 0)
+		return e, rows, crows, false
 	}
+	e1, rows1, crow1, skip1 := oneWay("merge b2 into b1", "m1", "b1", "b2", ours, theirs, oursChanged)
+	_, rows2, crow2, skip2 := oneWay("merge b1 into b2", "m2", "b2", "b1", theirs, ours, sc != nil && !oursChanged)
+	exp1, conf1 := e1.T, e1.Confs
 
 	// swap symmetry, stated on dolt's own results
 	if !skip1 && !skip2 {
@@ -300,6 +318,9 @@ func c29Case(rt *rapid.T, env *mEnv, rec *vh.Recorder) {
 	desc := fmt.Sprintf("%s; base=%s; ours: %s; theirs: %s", sp, mShow(base.T), strings.Join(ours.Ops, "; "), strings.Join(theirs.Ops, "; "))
 	nontrivial := sh.cellwise > 0 && sh.conflicts > 0 && sh.oneSidedDelete > 0
 	cl := c29Classes(sp, sh, mode, len(base.T.Rows))
+	if len(e1.Alt) > 0 {
+		cl = append(cl, "drop_vs_change_of_dropped_cell")
+	}
 	if sc != nil {
 		cl = append(cl, "one_sided_schema_change", "sc="+sc.Kind)
 		if oursChanged {
@@ -316,7 +337,10 @@ func c29Case(rt *rapid.T, env *mEnv, rec *vh.Recorder) {
 	} else {
 		cl = append(cl, "no_schema_change")
 	}
-	if skip1 || skip2 {
+	if sc != nil && sc.Refused {
+		cl = append(cl, "documented_schema_conflict")
+		nontrivial = false
+	} else if skip1 || skip2 {
 		cl = append(cl, "one_direction_excluded_known")
 	}
 	rec.Case(desc, nontrivial, cl...)
